@@ -1069,6 +1069,16 @@ func (h *handler) handleProduce(ctx context.Context, header *protocol.RequestHea
 				}
 				continue
 			}
+			if batch.MessageCount <= 0 || batch.LastOffsetDelta != batch.MessageCount-1 {
+				// Offsets are assigned from these header fields; a batch whose
+				// offset range disagrees with its record count would leave gaps
+				// or make later batches overlap it.
+				p := kmsg.NewProduceResponseTopicPartition()
+				p.Partition = part.Partition
+				p.ErrorCode = protocol.CORRUPT_MESSAGE
+				partitionResponses = append(partitionResponses, p)
+				continue
+			}
 			result, err := plog.AppendBatch(ctx, batch)
 			if err != nil {
 				p := kmsg.NewProduceResponseTopicPartition()
